@@ -34,3 +34,10 @@ CASES += [
       "        trdata[:,:,:] = DD[:,:,:]\n        self.TrDMOp = TransitionDipoleMoment(data=trdata)",
       "        self.TrDMOp = TransitionDipoleMoment(data=DD.copy())", path=AGB),
 ]
+
+CASES += [
+    m("axis shifted by the excited-block energy alone", "C11-F",
+      "            self.rwa = self.convert_2_internal_u(HR[Ne]-HR[Ng])", "            self.rwa = self.convert_2_internal_u(HR[Ne])"),
+    t("frame frequency written without the helper locals",
+      "            self.rwa = self.convert_2_internal_u(HR[Ne]-HR[Ng])", "            self.rwa = self.convert_2_internal_u(HR[HH.rwa_indices[1]]-HR[HH.rwa_indices[0]])"),
+]
